@@ -1,0 +1,14 @@
+//go:build !verif
+
+package consensus
+
+import (
+	"github.com/nspcc-dev/dbft"
+	"github.com/nspcc-dev/neo-go/pkg/util"
+)
+
+func verifOpts(opts []func(*dbft.Config[util.Uint256])) []func(*dbft.Config[util.Uint256]) {
+	return opts
+}
+
+func verifLoopIdle(*service) {}
